@@ -72,6 +72,11 @@ func (c *BindingManager) AddBinding(remoteDevice api.DeviceRemoteInterface, data
 	c.mux.Lock()
 	defer c.mux.Unlock()
 
+	// the connection was removed while this request was processed, its entries are or will be cleaned
+	if device, ok := remoteDevice.(*DeviceRemote); ok && device.removed.Load() {
+		return errors.New("the connection of the remote device was removed")
+	}
+
 	// check again under the lock, a concurrent request may have added a binding in the meantime
 	for _, item := range c.bindingEntries {
 		if reflect.DeepEqual(*item.ServerFeature.Address(), *serverFeature.Address()) {
